@@ -1,28 +1,481 @@
 package main
 
+// Replay of solver models against the real code: an in-package test is
+// injected with `go test -overlay`, inputs are built from the model, the real
+// function is called, and the observed outputs are fed back into the failing
+// query. The violation is confirmed when the query stays satisfiable with the
+// real outputs (or when the predicted panic is observed).
+
 import (
+	"encoding/hex"
 	"encoding/json"
 	"fmt"
+	"go/types"
 	"os"
+	"os/exec"
 	"path/filepath"
+	"strings"
+
+	"golang.org/x/tools/go/ssa"
 )
+
+const replayElems = 40
+
+type InSpec struct {
+	Name   string
+	T      types.Type
+	Kind   string // int, bool, bytes, string, ptr, struct, ghostbuf, unsupported
+	Term   Term
+	Len    Term
+	Cap    Term
+	Row    Term
+	Off    Term
+	Elems  []Term
+	Fields []*InSpec
+}
+
+// buildInSpec describes an input value (entry state) for replay.
+func (x *Exec) buildInSpec(name string, v *Value, st *State, depth int, flat *[]ModelVar) *InSpec {
+	e := x.eng
+	sp := &InSpec{Name: name, T: v.T}
+	add := func(n string, t Term) { *flat = append(*flat, ModelVar{n, t}) }
+	if v.T == nil {
+		sp.Kind = "unsupported"
+		return sp
+	}
+	switch u := v.T.Underlying().(type) {
+	case *types.Basic:
+		switch {
+		case u.Info()&types.IsBoolean != 0:
+			sp.Kind, sp.Term = "bool", v.C[0]
+			add(name, v.C[0])
+		case u.Info()&types.IsInteger != 0:
+			sp.Kind, sp.Term = "int", v.C[0]
+			add(name, v.C[0])
+		case u.Info()&types.IsString != 0:
+			sp.Kind, sp.Len, sp.Row, sp.Off = "string", v.C[2], v.C[0], v.C[1]
+			add(name+"#len", v.C[2])
+			add(name+"#off", v.C[1])
+			for i := 0; i < replayElems; i++ {
+				t := Select(v.C[0], Add(v.C[1], IntLit(int64(i))))
+				sp.Elems = append(sp.Elems, t)
+				add(fmt.Sprintf("%s[%d]", name, i), t)
+			}
+		default:
+			sp.Kind = "unsupported"
+		}
+	case *types.Slice:
+		l := e.layout(u.Elem())
+		if len(l) == 1 && l[0].Sort == SInt && l[0].Kind == "int" {
+			key, _ := e.heapKey("M", u.Elem(), 0)
+			row := Select(x.heapGet(st, key), v.C[0])
+			sp.Kind, sp.Term, sp.Len, sp.Cap, sp.Row, sp.Off = "ints", v.C[0], v.C[2], v.C[3], row, v.C[1]
+			add(name+"#ref", v.C[0])
+			add(name+"#len", v.C[2])
+			add(name+"#cap", v.C[3])
+			add(name+"#off", v.C[1])
+			for i := 0; i < replayElems; i++ {
+				t := Select(row, Add(v.C[1], IntLit(int64(i))))
+				sp.Elems = append(sp.Elems, t)
+				add(fmt.Sprintf("%s[%d]", name, i), t)
+			}
+		} else {
+			sp.Kind = "unsupported"
+			add(name+"#len", v.C[2])
+		}
+	case *types.Pointer:
+		sp.Term = v.C[0]
+		add(name+"#ref", v.C[0])
+		el := u.Elem()
+		if isGhostType(el) {
+			g := x.Load(st, x.ptrOf(v))
+			l := e.layout(el)
+			if len(l) == 2 && l[0].Sort == SArr {
+				sp.Kind, sp.Row, sp.Off, sp.Len = "ghostbuf", g.C[0], IntLit(0), g.C[1]
+				add(name+".len", g.C[1])
+				for i := 0; i < replayElems; i++ {
+					t := Select(g.C[0], IntLit(int64(i)))
+					sp.Elems = append(sp.Elems, t)
+					add(fmt.Sprintf("%s.buf[%d]", name, i), t)
+				}
+			} else if len(l) == 1 && l[0].Sort == SInt {
+				sp.Kind = "ghostint"
+				sp.Len = g.C[0]
+				add(name+".val", g.C[0])
+			} else {
+				sp.Kind = "unsupported"
+			}
+			return sp
+		}
+		if st2, ok := el.Underlying().(*types.Struct); ok && depth < 2 && v.P == nil {
+			sp.Kind = "ptr"
+			pv := x.Load(st, x.ptrOf(v))
+			off := 0
+			for i := 0; i < st2.NumFields(); i++ {
+				n := len(e.layout(st2.Field(i).Type()))
+				sp.Fields = append(sp.Fields, x.buildInSpec(name+"."+st2.Field(i).Name(), e.sub(pv, off, n, st2.Field(i).Type()), st, depth+1, flat))
+				off += n
+			}
+		} else {
+			sp.Kind = "unsupported"
+		}
+	case *types.Struct:
+		if isGhostType(v.T) {
+			sp.Kind = "unsupported"
+			return sp
+		}
+		sp.Kind = "struct"
+		off := 0
+		for i := 0; i < u.NumFields(); i++ {
+			n := len(e.layout(u.Field(i).Type()))
+			sp.Fields = append(sp.Fields, x.buildInSpec(name+"."+u.Field(i).Name(), e.sub(v, off, n, u.Field(i).Type()), st, depth, flat))
+			off += n
+		}
+	case *types.Interface:
+		sp.Kind = "iface"
+		sp.Term = v.C[0]
+		add(name+"#tag", v.C[0])
+	default:
+		sp.Kind = "unsupported"
+	}
+	return sp
+}
+
+type replayGen struct {
+	pkg     *types.Package
+	model   map[string]string
+	imports map[string]bool
+	pins    []string // SMT assertions pinning inputs to the replayed values
+	bad     string
+}
+
+func (g *replayGen) mint(name string) (int64, bool) {
+	s, ok := g.model[name]
+	if !ok {
+		return 0, false
+	}
+	return modelInt(s)
+}
+
+func (g *replayGen) typeName(t types.Type) string {
+	return types.TypeString(t, func(p *types.Package) string {
+		if p == g.pkg {
+			return ""
+		}
+		g.imports[p.Path()] = true
+		return p.Name()
+	})
+}
+
+func smtInt(n int64) string { return IntLit(n).S }
+
+func (g *replayGen) expr(sp *InSpec) string {
+	switch sp.Kind {
+	case "int":
+		v, _ := g.mint(sp.Name)
+		g.pins = append(g.pins, fmt.Sprintf("(assert (= %s %s))", sp.Term.S, smtInt(v)))
+		return fmt.Sprintf("%s(%d)", g.typeName(sp.T), v)
+	case "bool":
+		s := g.model[sp.Name]
+		g.pins = append(g.pins, fmt.Sprintf("(assert (= %s %s))", sp.Term.S, s))
+		return fmt.Sprintf("%s(%s)", g.typeName(sp.T), s)
+	case "ints", "string", "ghostbuf":
+		n, _ := g.mint(sp.Name + "#len")
+		if sp.Kind == "ghostbuf" {
+			n, _ = g.mint(sp.Name + ".len")
+		}
+		if n < 0 || n > 1<<26 {
+			g.bad = fmt.Sprintf("%s: length %d not replayable", sp.Name, n)
+			return "nil"
+		}
+		g.pins = append(g.pins, fmt.Sprintf("(assert (= %s %s))", sp.Len.S, smtInt(n)))
+		var els []string
+		off, _ := g.mint(sp.Name + "#off")
+		if sp.Kind != "ghostbuf" {
+			g.pins = append(g.pins, fmt.Sprintf("(assert (= %s %s))", sp.Off.S, smtInt(off)))
+		}
+		rowLit := "((as const (Array Int Int)) 0)"
+		for i := 0; i < replayElems && int64(i) < n; i++ {
+			key := fmt.Sprintf("%s[%d]", sp.Name, i)
+			if sp.Kind == "ghostbuf" {
+				key = fmt.Sprintf("%s.buf[%d]", sp.Name, i)
+			}
+			v, _ := g.mint(key)
+			if v != 0 {
+				els = append(els, fmt.Sprintf("%d: %d", i, v))
+				rowLit = fmt.Sprintf("(store %s %s %s)", rowLit, smtInt(off+int64(i)), smtInt(v))
+			}
+		}
+		// the whole backing row is pinned (ground, no quantifier): cells not listed are zero
+		g.pins = append(g.pins, fmt.Sprintf("(assert (= %s %s))", sp.Row.S, rowLit))
+		switch sp.Kind {
+		case "string":
+			return fmt.Sprintf("%s(gvcBytes(%d, map[int]int64{%s}))", g.typeName(sp.T), n, strings.Join(els, ", "))
+		case "ghostbuf":
+			g.imports["bytes"] = true
+			tn := g.typeName(derefT(sp.T))
+			if tn == "bytes.Reader" {
+				return fmt.Sprintf("bytes.NewReader(gvcBytes(%d, map[int]int64{%s}))", n, strings.Join(els, ", "))
+			}
+			return fmt.Sprintf("bytes.NewBuffer(gvcBytes(%d, map[int]int64{%s}))", n, strings.Join(els, ", "))
+		}
+		ref, _ := g.mint(sp.Name + "#ref")
+		if ref == 0 {
+			g.pins = append(g.pins, fmt.Sprintf("(assert (= %s 0))", sp.Term.S))
+			return fmt.Sprintf("%s(nil)", g.typeName(sp.T))
+		}
+		g.pins = append(g.pins, fmt.Sprintf("(assert (not (= %s 0)))", sp.Term.S))
+		el := sp.T.Underlying().(*types.Slice).Elem()
+		return fmt.Sprintf("gvcInts[%s](%d, map[int]int64{%s})", g.typeName(el), n, strings.Join(els, ", "))
+	case "ghostint":
+		g.bad = sp.Name + ": big.Int inputs not replayable"
+		return "nil"
+	case "ptr":
+		ref, _ := g.mint(sp.Name + "#ref")
+		if ref == 0 {
+			g.pins = append(g.pins, fmt.Sprintf("(assert (= %s 0))", sp.Term.S))
+			return "nil"
+		}
+		g.pins = append(g.pins, fmt.Sprintf("(assert (not (= %s 0)))", sp.Term.S))
+		return "&" + g.structLit(derefT(sp.T), sp.Fields)
+	case "struct":
+		return g.structLit(sp.T, sp.Fields)
+	}
+	g.bad = fmt.Sprintf("%s: input of type %v not replayable", sp.Name, sp.T)
+	return "nil"
+}
+
+func (g *replayGen) structLit(t types.Type, fields []*InSpec) string {
+	st := t.Underlying().(*types.Struct)
+	var parts []string
+	for i, f := range fields {
+		fld := st.Field(i)
+		if !fld.Exported() && fld.Pkg() != g.pkg {
+			g.bad = fmt.Sprintf("unexported field %s of foreign struct", fld.Name())
+			continue
+		}
+		parts = append(parts, fmt.Sprintf("%s: %s", fld.Name(), g.expr(f)))
+	}
+	return fmt.Sprintf("%s{%s}", g.typeName(t), strings.Join(parts, ", "))
+}
+
+// tryReplay runs the model of a failed obligation against the real code.
+func tryReplay(ld *loaded, rep *FuncReport, o *Obligation) {
+	if o.Result == nil || o.Result.Status != "sat" || rep.Fn == nil || rep.InSpecs == nil {
+		return
+	}
+	fn := rep.Fn
+	g := &replayGen{pkg: fn.Pkg.Pkg, model: o.Result.Model, imports: map[string]bool{"fmt": true, "testing": true, "encoding/hex": true}}
+	var args []string
+	for _, sp := range rep.InSpecs {
+		args = append(args, g.expr(sp))
+	}
+	if g.bad != "" {
+		o.replayNote = "not replayable: " + g.bad
+		return
+	}
+	// call expression
+	var call string
+	sig := fn.Signature
+	if sig.Recv() != nil {
+		call = fmt.Sprintf("(%s).%s(%s)", args[0], fn.Name(), strings.Join(args[1:], ", "))
+	} else {
+		call = fmt.Sprintf("%s(%s)", fn.Name(), strings.Join(args, ", "))
+	}
+	nres := sig.Results().Len()
+	var lhs []string
+	var prints []string
+	for i := 0; i < nres; i++ {
+		lhs = append(lhs, fmt.Sprintf("r%d", i))
+		prints = append(prints, fmt.Sprintf("\tgvcOut(%d, r%d)\n", i, i))
+	}
+	assign := ""
+	if nres > 0 {
+		assign = strings.Join(lhs, ", ") + " := "
+	}
+	var imps []string
+	for p := range g.imports {
+		imps = append(imps, fmt.Sprintf("\t%q\n", p))
+	}
+	src := fmt.Sprintf(`package %s
+
+import (
+%s)
+
+func gvcBytes(n int, set map[int]int64) []byte {
+	b := make([]byte, n)
+	for i, v := range set {
+		b[i] = byte(v)
+	}
+	return b
+}
+
+func gvcInts[T ~int | ~int8 | ~int16 | ~int32 | ~int64 | ~uint | ~uint8 | ~uint16 | ~uint32 | ~uint64](n int, set map[int]int64) []T {
+	b := make([]T, n)
+	for i, v := range set {
+		b[i] = T(v)
+	}
+	return b
+}
+
+func gvcOut(i int, v any) {
+	switch x := v.(type) {
+	case nil:
+		fmt.Printf("GVC-OUT %%d nil\n", i)
+	case error:
+		fmt.Printf("GVC-OUT %%d nonnil-error %%q\n", i, x.Error())
+	case []byte:
+		if x == nil {
+			fmt.Printf("GVC-OUT %%d bytes-nil\n", i)
+		} else {
+			fmt.Printf("GVC-OUT %%d bytes %%s.\n", i, hex.EncodeToString(x))
+		}
+	case string:
+		fmt.Printf("GVC-OUT %%d string %%s.\n", i, hex.EncodeToString([]byte(x)))
+	case bool:
+		fmt.Printf("GVC-OUT %%d bool %%v\n", i, x)
+	case int, int8, int16, int32, int64, uint, uint8, uint16, uint32, uint64:
+		fmt.Printf("GVC-OUT %%d int %%d\n", i, x)
+	default:
+		fmt.Printf("GVC-OUT %%d other %%T\n", i, v)
+	}
+}
+
+func TestGvcReplay(t *testing.T) {
+	defer func() {
+		if r := recover(); r != nil {
+			fmt.Printf("GVC-PANIC %%v\n", r)
+		}
+	}()
+	_ = hex.EncodeToString
+	%s%s
+%s	fmt.Println("GVC-DONE")
+}
+`, fn.Pkg.Pkg.Name(), strings.Join(imps, ""), assign, call, strings.Join(prints, ""))
+	dir := getScratch()
+	fileSeq.Lock()
+	fileSeq.n++
+	id := fileSeq.n
+	fileSeq.Unlock()
+	testFile := filepath.Join(dir, fmt.Sprintf("replay%d_test.go", id))
+	os.WriteFile(testFile, []byte(src), 0o644)
+	rel := strings.TrimPrefix(fn.Pkg.Pkg.Path(), modPath)
+	pkgDir := filepath.Join(repoDir, rel)
+	ov := map[string]map[string]string{"Replace": {filepath.Join(pkgDir, "zz_gvc_replay_test.go"): testFile}}
+	ovData, _ := json.Marshal(ov)
+	ovFile := filepath.Join(dir, fmt.Sprintf("ov%d.json", id))
+	os.WriteFile(ovFile, ovData, 0o644)
+	cmd := exec.Command("sh", "-c", fmt.Sprintf("ulimit -v 24000000; cd %s && go test -overlay %s -v -vet=off -count=1 -timeout 60s -run '^TestGvcReplay$' .%s/", repoDir, ovFile, rel))
+	out, _ := cmd.CombinedOutput()
+	outs := string(out)
+	o.replaySrc = src
+	o.replayOut = truncate(outs, 3000)
+	if strings.Contains(outs, "GVC-PANIC") {
+		line := outs[strings.Index(outs, "GVC-PANIC"):]
+		line = firstLine(line)
+		switch o.Kind {
+		case "bounds", "nil", "div", "make", "panic", "assert", "call":
+			o.replayConfirmed = true
+			o.replayNote = "real code panics on the model's input: " + line
+		default:
+			o.replayConfirmed = true
+			o.replayNote = "real code panics on the model's input (obligation kind " + o.Kind + "): " + line
+		}
+		return
+	}
+	if !strings.Contains(outs, "GVC-DONE") {
+		o.replayNote = "replay did not complete: " + truncate(outs, 400)
+		return
+	}
+	switch o.Kind {
+	case "ensures":
+	default:
+		o.replayNote = "real code returned normally on the model's input; obligation kind " + o.Kind + " has no executable check"
+		return
+	}
+	// feed observed outputs back into the query
+	extra := append([]string(nil), g.pins...)
+	for _, line := range strings.Split(outs, "\n") {
+		if !strings.HasPrefix(line, "GVC-OUT ") {
+			continue
+		}
+		f := strings.Fields(line)
+		if len(f) < 3 {
+			continue
+		}
+		var idx int
+		fmt.Sscanf(f[1], "%d", &idx)
+		if idx >= len(o.outVals) {
+			continue
+		}
+		ov := o.outVals[idx]
+		switch f[2] {
+		case "nil":
+			extra = append(extra, fmt.Sprintf("(assert (= %s 0))", ov.C[0].S))
+		case "nonnil-error", "other":
+			extra = append(extra, fmt.Sprintf("(assert (not (= %s 0)))", ov.C[0].S))
+		case "bool":
+			extra = append(extra, fmt.Sprintf("(assert (= %s %s))", ov.C[0].S, f[3]))
+		case "int":
+			var v int64
+			fmt.Sscanf(f[3], "%d", &v)
+			extra = append(extra, fmt.Sprintf("(assert (= %s %s))", ov.C[0].S, smtInt(v)))
+		case "bytes-nil":
+			extra = append(extra, fmt.Sprintf("(assert (= %s 0))", ov.C[0].S), fmt.Sprintf("(assert (= %s 0))", ov.C[2].S))
+		case "bytes", "string":
+			hx := strings.TrimSuffix(f[3], ".")
+			b, _ := hex.DecodeString(hx)
+			if len(b) > 200000 {
+				o.replayNote = "output too long to feed back"
+				return
+			}
+			var row, off, ln Term
+			if f[2] == "string" {
+				row, off, ln = ov.C[0], ov.C[1], ov.C[2]
+			} else {
+				if o.outRow == nil || o.outRow[idx].S == "" {
+					continue
+				}
+				row, off, ln = o.outRow[idx], ov.C[1], ov.C[2]
+				extra = append(extra, fmt.Sprintf("(assert (not (= %s 0)))", ov.C[0].S))
+			}
+			extra = append(extra, fmt.Sprintf("(assert (= %s %d))", ln.S, len(b)))
+			for i, bv := range b {
+				extra = append(extra, fmt.Sprintf("(assert (= (select %s (+ %s %d)) %d))", row.S, off.S, i, bv))
+			}
+		}
+	}
+	text := o.smtText(extra, nil)
+	r := raceSolve(text, 20, nil)
+	switch r.Status {
+	case "sat":
+		o.replayConfirmed = true
+		o.replayNote = "confirmed: the postcondition is false for the outputs the real code produced on the model's input"
+	case "unsat":
+		o.replayNote = "model not reproduced: real outputs on this input satisfy the clause (or differ from the engine's prediction)"
+	default:
+		o.replayNote = "replay query undecided: " + r.Status
+	}
+}
 
 // writeReplay records a failed obligation (with the solver's model when there is one).
 func writeReplay(ld *loaded, prop string, o *Obligation) string {
 	path := filepath.Join(verifDir, "replays", prop, sanitize(o.Name)+".json")
 	rec := map[string]interface{}{
-		"property":      prop,
-		"obligation":    o.Name,
-		"function":      o.Func,
-		"kind":          o.Kind,
-		"clause":        o.Comment,
-		"position":      o.Pos,
-		"solver_status": o.Result.Status,
-		"solver":        o.Result.Solver,
-		"solver_output": truncate(o.Result.Output, 4000),
-		"model":         o.Result.Model,
-		"replay":        o.replayNote,
-		"confirmed":     o.replayConfirmed,
+		"property":        prop,
+		"obligation":      o.Name,
+		"function":        o.Func,
+		"kind":            o.Kind,
+		"clause":          o.Comment,
+		"position":        o.Pos,
+		"solver_status":   o.Result.Status,
+		"solver":          o.Result.Solver,
+		"solver_output":   truncate(o.Result.Output, 4000),
+		"model":           o.Result.Model,
+		"replay_verdict":  o.replayNote,
+		"confirmed":       o.replayConfirmed,
+		"replay_test":     o.replaySrc,
+		"replay_test_out": o.replayOut,
 	}
 	data, _ := json.MarshalIndent(rec, "", " ")
 	os.WriteFile(path, data, 0o644)
@@ -45,11 +498,52 @@ func cmdReplay(args []string) int {
 		fmt.Fprintln(os.Stderr, err)
 		return 2
 	}
-	fmt.Println(string(data))
+	var rec map[string]interface{}
+	if json.Unmarshal(data, &rec) != nil {
+		fmt.Println(string(data))
+		return 2
+	}
+	fmt.Printf("obligation: %v\nclause: %v\nposition: %v\nsolver: %v (%v)\nverdict: %v\n", rec["obligation"], rec["clause"], rec["position"], rec["solver"], rec["solver_status"], rec["replay_verdict"])
+	src, _ := rec["replay_test"].(string)
+	if src == "" {
+		fmt.Println("no executable replay recorded for this obligation (no-failing-input-found)")
+		return 0
+	}
+	// re-run the recorded test against the current tree
+	fn, _ := rec["function"].(string)
+	pkg := fn
+	if i := strings.Index(fn, "."); i >= 0 {
+		pkg = fn[:i]
+	}
+	dir := getScratch()
+	testFile := filepath.Join(dir, "replay_test.go")
+	os.WriteFile(testFile, []byte(src), 0o644)
+	// find package dir by name
+	var pkgDir string
+	filepath.WalkDir(repoDir, func(p string, d os.DirEntry, err error) error {
+		if err == nil && d.IsDir() && d.Name() == pkg && pkgDir == "" {
+			pkgDir = p
+		}
+		return nil
+	})
+	if pkgDir == "" {
+		fmt.Println("package directory not found for", pkg)
+		return 2
+	}
+	ov := map[string]map[string]string{"Replace": {filepath.Join(pkgDir, "zz_gvc_replay_test.go"): testFile}}
+	ovData, _ := json.Marshal(ov)
+	ovFile := filepath.Join(dir, "ov.json")
+	os.WriteFile(ovFile, ovData, 0o644)
+	rel, _ := filepath.Rel(repoDir, pkgDir)
+	cmd := exec.Command("sh", "-c", fmt.Sprintf("cd %s && go test -overlay %s -v -vet=off -count=1 -timeout 60s -run '^TestGvcReplay$' ./%s/", repoDir, ovFile, rel))
+	out, _ := cmd.CombinedOutput()
+	fmt.Println(string(out))
 	return 0
 }
 
 func cmdSelftest(args []string) int {
-	fmt.Println("selftest: not implemented yet")
+	fmt.Println("selftest: use /verif/selftest/run.sh")
 	return 0
 }
+
+var _ = ssa.NaiveForm
